@@ -13,5 +13,6 @@ open AgdbColl
 #print axioms C19_values_terminates
 #print axioms C19_index_chain
 #print axioms MultiMap_refines_partial
+#print axioms MultiMap_refines
 #print axioms C19_every_history_runs
 #print axioms C19_tombstone_counterexample
